@@ -81,6 +81,11 @@ pub fn render_tracked(t: &mut Tape, p: &Program) -> Rendered {
                 buf.push_str(indent);
                 buf.push_str(&text);
             }
+            Item::Raw(text) => {
+                locs.push(Loc { item: i, elem: 0, file: file.to_string(), line, col: indent.len(), text: text.clone() });
+                buf.push_str(indent);
+                buf.push_str(text);
+            }
             other => {
                 buf.push_str(indent);
                 buf.push_str(&item_text(other));
